@@ -17,6 +17,16 @@ use std::collections::BTreeMap;
 
 pub const PROP: Property = Property { id: "C12", run, finish, shards: |_| 16, expect_s: |t| t.of(30, 300) };
 
+/// the same function names with *different* behaviour: a second ruleset that must not be confused with the first
+fn descs_other(susp: &[usize; 4]) -> Vec<FnDesc> {
+    vec![
+        FnDesc { name: "s1", cacheable: true, kind: Kind::V, suspend: susp[0] },
+        FnDesc { name: "s2", cacheable: false, kind: Kind::Tag, suspend: susp[1] },
+        FnDesc { name: "n1", cacheable: true, kind: Kind::N, suspend: susp[2] },
+        FnDesc { name: "e1", cacheable: false, kind: Kind::T, suspend: susp[3] },
+    ]
+}
+
 fn descs(susp: &[usize; 4]) -> Vec<FnDesc> {
     vec![
         FnDesc { name: "s1", cacheable: true, kind: Kind::Tag, suspend: susp[0] },
@@ -39,8 +49,10 @@ fn gen_rule(rng: &mut Rng) -> Expr {
         let a = arg(rng);
         if rng.chance(1, 6) { Expr::func(f, Expr::func("s2", a)) } else { Expr::func(f, a) }
     };
-    match rng.below(8) {
-        0 => Expr::add(Expr::value(1), Expr::value(2)),
+    match rng.below(10) {
+        8 => Expr::index(Expr::Vec(vec![call(rng), call(rng)]), Index::from(rng.below(3))),
+        9 => Expr::iif(Expr::some(call(rng)), Expr::index(call(rng), Index::from(1usize)), Expr::symbol("sym")),
+        0 => Expr::Vec(vec![Expr::symbol("sym"), call(rng), Expr::symbol("sym")]),
         1 => call(rng),
         2 => Expr::Vec(vec![call(rng), call(rng)]),
         3 => Expr::Vec(vec![call(rng), call(rng), call(rng)]),
@@ -98,10 +110,16 @@ struct World {
     kept: Vec<Rule>,
 }
 
-fn world(rules: &[(String, Expr)], susp: &[usize; 4]) -> World {
-    let fx = build(&descs(susp), &BTreeMap::new(), rules, FaultPlan::default());
+fn world_with(rules: &[(String, Expr)], d: Vec<FnDesc>, sym: i128) -> World {
+    let mut symbols = BTreeMap::new();
+    symbols.insert("sym".to_string(), Value::Int(sym));
+    let fx = build(&d, &symbols, rules, FaultPlan::default());
     let kept = rules.iter().map(|(n, e)| Rule::new(n.clone(), BTreeMap::new(), e.clone())).collect();
     World { fx, kept }
+}
+
+fn world(rules: &[(String, Expr)], susp: &[usize; 4]) -> World {
+    world_with(rules, descs(susp), 1)
 }
 
 fn log_of(entries: &[Entry], eval: u64) -> Vec<String> {
@@ -134,6 +152,46 @@ fn drive(w: &World, inputs: &[&Value], schedule: &[usize], drop_after: &[Option<
         }
         Err(p) => Err(format!("panic: {p}")),
     }
+}
+
+/// one evaluation of each of two different rulesets under a schedule over {0, 1}
+fn drive_two(wa: &World, in_a: &Value, wb: &World, in_b: &Value, schedule: &[usize]) -> Result<(Result<Rendered, String>, Vec<String>, Result<Rendered, String>, Vec<String>), String> {
+    wa.fx.log.take();
+    wb.fx.log.take();
+    let ids = [100u64, 101u64];
+    let r = guard(|| {
+        let (ka, kb) = (&wa.kept, &wb.kept);
+        let (ra, rb) = (&wa.fx.ruleset, &wb.fx.ruleset);
+        let fa: BoxFut<'_, Result<Rendered, String>> = Box::pin(async move { render(ra.evaluate_value(in_a).await, ka) });
+        let fb: BoxFut<'_, Result<Rendered, String>> = Box::pin(async move { render(rb.evaluate_value(in_b).await, kb) });
+        run_schedule(vec![fa, fb], &ids, schedule, &[None, None])
+    });
+    let (ea, eb) = (wa.fx.log.take(), wb.fx.log.take());
+    match r {
+        Ok((mut outs, _)) => {
+            let ob = outs.pop().unwrap().unwrap();
+            let oa = outs.pop().unwrap().unwrap();
+            Ok((oa, log_of(&ea, 100), ob, log_of(&eb, 101)))
+        }
+        Err(p) => Err(format!("panic: {p}")),
+    }
+}
+
+/// Ground truth that does not come from the implementation: the reference evaluator's prediction for
+/// this ruleset alone. A process-wide memo that is *consistently* wrong (e.g. a symbol table shared by
+/// all rulesets) is invisible to a self-referential baseline, but not to this.
+fn agrees_with_model(w: &World, facts: &Value) -> Result<(), String> {
+    let pred = w.fx.predict(facts);
+    if pred.wide {
+        return Ok(());
+    }
+    let res = w.fx.eval(facts, 77)?;
+    for ((name, exp), (_, obs)) in pred.outcomes.iter().zip(res.outcomes.iter()) {
+        if let Some(mis) = crate::refeval::compare(exp, obs) {
+            return Err(format!("rule {name}: {mis}: observed {} expected {}", show_obs(obs), show_exp(exp)));
+        }
+    }
+    Ok(())
 }
 
 struct Baseline {
@@ -277,6 +335,36 @@ fn one_world(ctx: &mut Ctx, rng: &mut Rng) {
             Err(p) => return violation(ctx, "evaluation-panicked", p, &rules, json!({"schedule": sched})),
         }
     }
+    // two DIFFERENT rulesets (same function and symbol names, different behaviour and rules) interleaved:
+    // nothing may leak from one ruleset into the other
+    {
+        let n2 = 1 + rng.below(3);
+        let rules2: Vec<(String, Expr)> = (0..n2).map(|i| (format!("r{i}"), gen_rule(rng))).collect();
+        let w2 = world_with(&rules2, descs_other(&susp), 2);
+        for (which, ww, input) in [("first", &w, &in_a), ("second", &w2, &in_b), ("first again", &w, &in_b)] {
+            ctx.count();
+            if let Err(why) = agrees_with_model(ww, input) {
+                return violation(ctx, "outcome-depends-on-another-ruleset", format!("the {which} of two rulesets that share function and symbol names does not evaluate like it would alone: {why}"), &rules, json!({"other_rules": rules2.iter().map(|(_, e)| show_expr(e)).collect::<Vec<_>>()}));
+            }
+            ctx.hit("two-rulesets:agrees-with-model");
+        }
+        if let Ok(b2) = baseline(&w2, &in_b) {
+            for _ in 0..ctx.tier.of(4, 40) {
+                let mut s: Vec<usize> = std::iter::repeat(0).take(pa).chain(std::iter::repeat(1).take(b2.polls)).collect();
+                rng.shuffle(&mut s);
+                ctx.count();
+                match drive_two(&w, &in_a, &w2, &in_b, &s) {
+                    Ok((oa, la, ob, lb)) => {
+                        ctx.hit("interleave:two-different-rulesets");
+                        if oa != ba.outcomes || la != ba.log || ob != b2.outcomes || lb != b2.log {
+                            return violation(ctx, "outcome-depends-on-another-ruleset", "evaluations of two different rulesets interleaved do not behave like each run alone".into(), &rules, json!({"schedule": s, "other_rules": rules2.iter().map(|(_, e)| show_expr(e)).collect::<Vec<_>>(), "alone": [format!("{:?}", ba.outcomes), format!("{:?}", b2.outcomes)], "interleaved": [format!("{oa:?}"), format!("{ob:?}")]}));
+                        }
+                    }
+                    Err(p) => return violation(ctx, "evaluation-panicked", p, &rules, json!(null)),
+                }
+            }
+        }
+    }
     // three evaluations, sampled schedules
     for _ in 0..ctx.tier.of(3, 30) {
         let mut s: Vec<usize> = std::iter::repeat(0).take(pa).chain(std::iter::repeat(1).take(pb)).chain(std::iter::repeat(2).take(pa)).collect();
@@ -316,6 +404,23 @@ fn one_world(ctx: &mut Ctx, rng: &mut Rng) {
             }
             Err(p) => return violation(ctx, "evaluation-panicked", p, &rules, json!({"drop_after": j})),
         }
+    }
+    // (d') long tail after a drop: one evaluation is abandoned midway, then many fresh evaluations follow
+    // (a pooled / ring-buffered resource would come round again)
+    if rng.chance(1, ctx.tier.of(12, 4)) && pa >= 2 {
+        let j = 1 + rng.below(pa - 1);
+        let sched: Vec<usize> = std::iter::repeat(0).take(j).collect();
+        let _ = drive(&w, &[&in_a, &in_b], &sched, &[Some(j), None]);
+        for k in 0..300 {
+            ctx.count();
+            let (input, want) = if k % 2 == 0 { (&in_b, &bb) } else { (&in_a, &ba) };
+            match baseline(&w, input) {
+                Ok(b) if b.outcomes == want.outcomes && b.log == want.log => {}
+                Ok(b) => return violation(ctx, "outcome-depends-on-an-abandoned-evaluation", format!("evaluation #{} after an evaluation dropped at poll {j} differs from a first evaluation", k + 1), &rules, json!({"got": format!("{:?}", b.outcomes), "expected": format!("{:?}", want.outcomes), "log": b.log, "expected_log": want.log})),
+                Err(p) => return violation(ctx, "evaluation-panicked", p, &rules, json!(null)),
+            }
+        }
+        ctx.hit("cancel:long-tail-after-drop");
     }
     // (e) after an evaluation that failed as a rule (already part of the rules: e1) — covered by repeats;
     // finally the ruleset's rules are still the ones that were added
